@@ -633,6 +633,9 @@ func c13Random(r *Rng) C13Case {
 			}
 			p.Shadow = &sh
 		}
+		if p.Present && r.Chance(15) {
+			p.Value = "" // carried with an empty text (?q=, an empty header)
+		}
 		c.Params = append(c.Params, p)
 	}
 	c.GetBody = Pick(r, []string{"", "", "", "ok", "fails"})
